@@ -145,15 +145,21 @@ fn fmt_args(args: &[Operand], func: &AirFunction) -> String {
         .join(", ")
 }
 
+/// The definition a struct name stands for. A name may be defined twice (a warning, not an
+/// error); layout::try_compute_layouts resolves a name to its last definition and has checked
+/// that those definitions contain no by-value cycle, so the printer must resolve the same way:
+/// through the first definitions `struct A { b: B } struct B { a: A } struct B { y: int }`
+/// is a cycle, and computing a size along it never returned.
+fn struct_named<'a>(program: &'a AirProgram, name: &str) -> Option<&'a AirStructDef> {
+    program.structs.iter().rev().find(|s| s.name == name)
+}
+
 fn place_type(place: &Place, func: &AirFunction, program: &AirProgram) -> AirType {
     match place {
         Place::Local(id) => local_type(func, *id).clone(),
         Place::Field(id, name) => {
             if let AirType::Struct(sname) = local_type(func, *id) {
-                program
-                    .structs
-                    .iter()
-                    .find(|s| s.name == *sname)
+                struct_named(program, sname)
                     .and_then(|s| s.fields.iter().find(|f| f.name == *name))
                     .map(|f| f.ty.clone())
                     .unwrap_or(AirType::Void)
@@ -317,10 +323,7 @@ fn fmt_terminator(term: &AirTerminator, func: &AirFunction, program: &AirProgram
 
 fn type_layout_for_print(ty: &AirType, program: &AirProgram) -> (u32, u32) {
     match ty {
-        AirType::Struct(name) => program
-            .structs
-            .iter()
-            .find(|s| s.name == *name)
+        AirType::Struct(name) => struct_named(program, name)
             .map(|d| struct_size_align(d, program))
             .unwrap_or((0, 1)),
         // element layout through this function, so that the element may be a struct
